@@ -20,6 +20,11 @@ ENCL = {
     "switch": ("switch (o) { case 0: case 1: ", " break; default: acc+=11 }"),
     "forin": ("for (var kk in {x:1,y:2}) { ", " }"),
     "forof": ("for (var vv of [1,2]) { ", " }"),
+    # a finally block that overrides the pending completion (return value, exception, jump) with a jump of its own
+    "finally_continue": ("try { ", " } finally { continue outer }"),
+    "finally_break": ("try { ", " } finally { break outer }"),
+    "finally_continue_in_forin": ("for (var kk in {x:1,y:2}) { try { ", " } finally { continue } }"),
+    "finally_return": ("try { ", " } finally { return acc }"),
 }
 
 
